@@ -37,19 +37,53 @@ K19 = [
 ]
 
 
+def generated_patterns(sk):
+    """the property's own pattern space: every (non-trivial) expression of the module with its
+    identifier slots abstracted into wildcards (one wildcard per slot, so slots that are spelled the
+    same in a partition are still matched by the pattern whose wildcards differ) - at least one
+    instance exists by construction"""
+    import re
+
+    dummies = ["zq%dq" % i for i in range(sk.nslots)]
+    src = re.sub(r"\{(\d+)\}", lambda m: dummies[int(m.group(1))], sk.files["main.py"])
+    tree = ast.parse(src)
+    out = []
+    for n in ast.walk(tree):
+        if not isinstance(n, ast.expr) or isinstance(n, (ast.Name, ast.Constant)) or isinstance(getattr(n, "ctx", None), (ast.Store, ast.Del)):
+            continue
+        seg = ast.get_source_segment(src, n)
+        if seg is None or "\n" in seg:
+            continue
+        pat = re.sub(r"zq(\d+)q", lambda m: "${w%s}" % m.group(1), seg)
+        if "${" in pat and pat not in out:
+            out.append(pat)
+    return out
+
+
+def all_patterns(k, tier):
+    s, pats = K19[k]
+    pats = list(pats)
+    if tier == "thorough":
+        have = {p for p, _ in pats}
+        pats += [(g, g) for g in generated_patterns(s) if g not in have]
+    return pats
+
+
 def instances(tier):
     out = []
-    for k, (s, pats) in enumerate(K19):
+    for k, (s, _pats) in enumerate(K19):
+        pats = all_patterns(k, tier)
         for j in range(len(pats)):
-            out.append(("find.%s.p%d" % (s.name, j), dict(kind="find", k=k, j=j)))
-            out.append(("restructure.%s.p%d" % (s.name, j), dict(kind="restructure", k=k, j=j)))
-            out.append(("identity.%s.p%d" % (s.name, j), dict(kind="identity", k=k, j=j)))
+            out.append(("find.%s.p%d" % (s.name, j), dict(kind="find", k=k, j=j, tier=tier)))
+            if pats[j][0] != pats[j][1]:
+                out.append(("restructure.%s.p%d" % (s.name, j), dict(kind="restructure", k=k, j=j, tier=tier)))
+            out.append(("identity.%s.p%d" % (s.name, j), dict(kind="identity", k=k, j=j, tier=tier)))
     return out
 
 
 def make_find(p):
-    s, pats = K19[p["k"]]
-    pattern = pats[p["j"]][0]
+    s = K19[p["k"]][0]
+    pattern = all_patterns(p["k"], p.get("tier", "quick"))[p["j"]][0]
 
     def run():
         E = core.ENGINE
@@ -99,8 +133,8 @@ def make_find(p):
 
 
 def make_restructure(p, identity):
-    s, pats = K19[p["k"]]
-    pattern, goal = pats[p["j"]]
+    s = K19[p["k"]][0]
+    pattern, goal = all_patterns(p["k"], p.get("tier", "quick"))[p["j"]]
     if identity:
         goal = pattern
 
